@@ -38,6 +38,7 @@ func (u *Unknown) Wrap(fileKey []byte) ([]*age.Stanza, error) {
 
 var (
 	worldOnce sync.Once
+	worldMu   sync.Mutex
 	world     map[string]*Party
 )
 
@@ -84,10 +85,18 @@ func buildWorld() {
 		{Type: "long-args", Args: []string{string(long), "tail"}, Body: make([]byte, 100)}}}}
 }
 
-// P returns the named party: X1..X4, E1..E3, R1..R4, S1, S2, U0..U4.
+// P returns the named party: X1..X4, E1..E3, R1..R4, S1, S2, U0..U4, and
+// XN<anything>: further native parties made on demand (for very long lists).
 func P(name string) *Party {
 	worldOnce.Do(buildWorld)
+	worldMu.Lock()
+	defer worldMu.Unlock()
 	p := world[name]
+	if p == nil && len(name) > 2 && name[:2] == "XN" {
+		x := NewX(name)
+		p = &Party{Name: name, Kind: 'X', Recipient: x.Recipient(), Identity: x.Identity(), Ref: x.Ref}
+		world[name] = p
+	}
 	if p == nil {
 		panic("keys: unknown party " + name)
 	}
